@@ -41,6 +41,12 @@ def scenario(big: bool = False) -> Any:
             if m["dur"] == "never":
                 m["dur"] = 0.0
                 m["out"] = "never"
+        cs = d.pop("clock_step")
+        if cs:
+            for m in d["msgs"]:
+                if m["kind"] == "async" and m["dur"] and m["out"] != "never":
+                    m["clock_step"] = cs         # the host's wall clock is stepped while this task runs
+                    break
         if d.pop("park"):
             for m in d["msgs"]:
                 if m["kind"] == "async" and m["dur"] and m["out"] != "never":
@@ -73,6 +79,7 @@ def scenario(big: bool = False) -> Any:
         "msgs": st.lists(msg, min_size=0, max_size=12 if big else 7),
         "stop": cm.times(60), "has_stop": st.booleans(),
         "park": st.sampled_from([False, False, False, True]),
+        "clock_step": st.sampled_from([0, 0, 0, -30.0, -0.5, 3600.0]),
         # what the broker's listen() does when its pending fetch gets cancelled at the stop: nothing, a clean-up round trip of 3 s / 20 s, or a failure
         "cancel_cleanup": st.sampled_from([None, None, None, 3.0, 20.0, "raise"]),
         "staggered": st.fixed_dictionaries({"on": st.sampled_from([False, False, False, True]), "k": st.integers(1, 3),
